@@ -154,9 +154,13 @@ def triplets(ctx, facts, unit):
             cs = canon(flat["size"], allpush, None)
             ce = canon(flat["encode"], allpush, flat["encode"])
             cd = canon(flat["decode"], allpush, flat["encode"])
+            # the size pass may sum fixed-size elements as count * (sizeof(A)+sizeof(B)): compare it with member order collapsed,
+            # encode and decode exactly (order of members matters between those two)
+            cs2 = canon(flat["size"], allpush, None, collapse=True)
+            ce2 = canon(flat["encode"], allpush, flat["encode"], collapse=True)
         except Unfoldable as e:
             raise AnalysisBroken("%s: %s" % (cls, e))
-        ok = cs == ce == cd and cs != ""
+        ok = ce == cd and (cs == ce or cs2 == ce2) and ce != ""
         what = "reserved = written = consumed: %s" % (cs if ok else "size{%s} encode{%s} decode{%s}" % (cs, ce, cd))
         ctx.ob("C04.R1", "%s:triplet" % cls.replace("quill::", ""), ok,
                "byte layout of compute_encoded_size, encode and decode_arg — " + what[:900], fn=f, detail={"size": cs, "encode": ce, "decode": cd})
